@@ -4,8 +4,8 @@
    those of the classes its except clause names -, and finally returns a value computed from its children's results or raises
    an exception of some class. An exception is the raiser's number with the linearised ancestry (MRO) of its class, as class
    numbers; a clause naming class b catches it iff b occurs in that ancestry (Python's isinstance test). What an exception looks
-   like after crossing the connection is a parameter [xw] of the machine (the identity when classes are reproduced by the
-   receiver; the generic stand-in's ancestry for classes the receiver is configured not to reproduce). *)
+   like after crossing the connection is a parameter [xw] of the machine, one function per RECEIVING peer (the identity when classes
+   are reproduced by that receiver; the generic stand-in's ancestry for classes the receiver is configured not to reproduce). *)
 From V Require Import lib.Base lib.Sx.
 From Coq Require Import Arith Relations String.
 
@@ -71,8 +71,8 @@ Qed.
    through [xw] (what the connection does to an exception's class). A node other than the root runs on the peer it names; the
    root runs on A. With xw the identity this is [eval] (evalx_id). ---------- *)
 Section Crossing.
-Variable xw : list nat -> list nat.
-Definition seen_by (s : side) (k : node) (o : outcome) : outcome := if side_eqb (nside k) s then o else cross xw o.
+Variable xw : side -> list nat -> list nat.        (* xw t: what the peer t, RECEIVING an exception, makes of its class (its own configuration) *)
+Definition seen_by (s : side) (k : node) (o : outcome) : outcome := if side_eqb (nside k) s then o else cross (xw s) o.
 Fixpoint evalx (n:node) : list nat * outcome :=
   match n with Node s i kids r =>
     let '(l,o) := (fix go (ks:list (node*catch)) (acc:nat) : list nat * outcome :=
@@ -124,7 +124,7 @@ Definition send (f:side->peer) (to:side) (m:msg) :=
   upd f to {| stack := stack (f to); nseq := nseq (f to); inbox := inbox (f to) ++ [m] |}.
 
 Section Machine.
-Variable xw : list nat -> list nat.
+Variable xw : side -> list nat -> list nat.
 
 Inductive pstep (s:side) : sys -> sys -> Prop :=
 | st_fin f l res r n acc K q ib :
@@ -152,7 +152,7 @@ Inductive pstep (s:side) : sys -> sys -> Prop :=
 | st_ret_remote f l res rq o K q ib :
     f s = {| stack := FRet (Some rq) o :: K; nseq := q; inbox := ib |} ->
     pstep s (mk f l res)
-            (mk (send (upd f s {| stack := K; nseq := q; inbox := ib |}) (other s) (Rep rq (cross xw o))) l res)
+            (mk (send (upd f s {| stack := K; nseq := q; inbox := ib |}) (other s) (Rep rq (cross (xw (other s)) o))) l res)
 | st_ret_val f l res v r n ks acc c K q ib :
     f s = {| stack := FRet None (Val v) :: FCall r n ks acc c :: K; nseq := q; inbox := ib |} ->
     pstep s (mk f l res) (mk (upd f s {| stack := FRun r n ks (acc+v) :: K; nseq := q; inbox := ib |}) l res)
@@ -190,7 +190,7 @@ Definition pstep_fun (s : side) (y : sys) : option sys :=
       | Req rq k :: ib' => Some (mk (upd f s {| stack := [FRun (Some rq) k (nkids k) 0]; nseq := q; inbox := ib' |}) (l ++ [nid k]) res)
       | _ => None
       end
-  | FRet (Some rq) o :: K => Some (mk (send (upd f s {| stack := K; nseq := q; inbox := ib |}) (other s) (Rep rq (cross xw o))) l res)
+  | FRet (Some rq) o :: K => Some (mk (send (upd f s {| stack := K; nseq := q; inbox := ib |}) (other s) (Rep rq (cross (xw (other s)) o))) l res)
   | FRet None o :: FCall r n ks acc c :: K =>
       match o with
       | Val v => Some (mk (upd f s {| stack := FRun r n ks (acc + v) :: K; nseq := q; inbox := ib |}) l res)
@@ -213,7 +213,7 @@ Definition init (root : node) : sys :=
      [nid root] None.
 
 (* run with an A-first scheduler until nothing moves *)
-Fixpoint exec (xw : list nat -> list nat) (fuel : nat) (y : sys) : sys :=
+Fixpoint exec (xw : side -> list nat -> list nat) (fuel : nat) (y : sys) : sys :=
   match fuel with
   | O => y
   | S f => match pstep_fun xw SA y with
@@ -256,10 +256,11 @@ Definition sx_outcome (o : outcome) : sx :=
   match o with Val v => SL [SI 0; snat v] | Exc e => SL [SI 1; snat (fst e); SL (map snat (snd e))] end.
 Definition run_calltree (x : sx) : sx :=
   match x with
-  | SL [fuel; depth; t; tbl] =>
+  | SL (fuel :: depth :: t :: tbl :: more) =>       (* one table for both receivers, or [tblA; tblB] *)
       let root := node_of_sx (sx_nat depth) t in
       let '(ll, lo) := eval root in
-      let y := exec (xw_table (table_of_sx tbl)) (sx_nat fuel) (init root) in
+      let ta := table_of_sx tbl in let tb := match more with tb0 :: _ => table_of_sx tb0 | [] => ta end in
+      let y := exec (fun sd => xw_table (match sd with SA => ta | SB => tb end)) (sx_nat fuel) (init root) in
       SL [SL (map snat ll); sx_outcome lo; SL (map snat (log y));
           match result y with Some o => SL [sx_outcome o] | None => SL [] end;
           snat (List.length (stack (peers y SA)) + List.length (stack (peers y SB)) + List.length (inbox (peers y SA)) + List.length (inbox (peers y SB)))]
